@@ -91,7 +91,10 @@ def _(fn):
 
 @affine_inputs.register(Reduce)
 def _(fn):
-    return affine_inputs(fn.arg) - fn.reduced_vars
+    if fn.op is ops.add:
+        reduced_names = frozenset(v.name for v in fn.reduced_vars)
+        return affine_inputs(fn.arg) - reduced_names
+    return frozenset()
 
 
 @affine_inputs.register(Finitary[ops.EinsumOp, tuple])
